@@ -108,10 +108,13 @@ def _judge(rep, cars, mode, rules, text_codes, exp_ok, exp_ms, nontrivial, what,
     obs = observe(run, exp_ms)
     exp = expected_shape(exp_ok, exp_ms if exp_ok else [], with_plain=(mode == "many" and exp_ok is True))
     case = dict(mode=mode, rules=rules, text=text_codes)
+    if cars.opts:
+        case["opts"] = cars.opts
     if extra:
         case.update(extra)
+    with_ = f" [meta-model options {cars.opts}]" if cars.opts else ""
     return common.judge(rep, case, obs, exp, None, nontrivial=nontrivial,
-                        why=f"{what}: textX on {text!r} with {mode}({','.join(rules)}) gave {_short(obs)} "
+                        why=f"{what}{with_}: textX on {text!r} with {mode}({','.join(rules)}) gave {_short(obs)} "
                             f"but BaseTypes.tla prescribes {_short(exp)}")
 
 
@@ -125,23 +128,74 @@ def _interesting(codes):
     return any(c in (34, 39, 92, 10) for c in codes)
 
 
-def _replay_universes(rep, cars, uni):
+# The base types are documented independently of the meta-model options, so the same answers are
+# demanded under each of these (use_regexp_group consults the capturing groups of the very regexes
+# under test).  Two options change what the *carrier* does, and only there cases are left out:
+#   skipws=False  nothing is skipped between matches -> only texts whose matches are contiguous;
+#   ignore_case   the BOOL spellings become case-insensitive by design -> the BOOL universe is left out.
+OPTION_SETS = [
+    ("use_regexp_group", dict(use_regexp_group=True)),
+    ("ignore_case", dict(ignore_case=True)),
+    ("autokwd", dict(autokwd=True)),
+    ("skipws_off", dict(skipws=False)),
+    ("memoization", dict(memoization=True)),
+    ("group+autokwd+memo", dict(use_regexp_group=True, autokwd=True, memoization=True)),
+]
+
+
+def _contiguous(text_codes, ok, ms):
+    """the module's matches cover the text without gaps (no white space needs skipping)"""
+    if not ok:
+        return not text_codes or text_codes[0] not in (9, 10, 13, 32)
+    pos = 0
+    for m in ms:
+        if m["beg"] != pos:
+            return False
+        pos = m["end"]
+    return pos == len(text_codes)
+
+
+def _applies(cars, mode, text_codes, ok, ms):
+    if cars.opts.get("skipws", True) is False:
+        if mode == "one":       # whatever follows the match is taken by the carrier's Tail rule
+            return not text_codes or text_codes[0] not in (9, 10, 13, 32)
+        return _contiguous(text_codes, ok, ms)
+    return True
+
+
+def _replay_universes(rep, cars, uni, frac=None, rng=None):
+    """frac: {"strings": f, "num": f}: seeded sample of the universes (None = all)"""
     n = {}
+    label = "" if not cars.opts else " under options"
+
+    def take(kind):
+        return frac is None or rng.random() < frac[kind]
+
     for c in uni.get("str", ([], []))[0] + uni.get("pair", ([], []))[0]:
+        if not take("strings") or not _applies(cars, "many", c["text"], c["ok"], c["ms"]):
+            continue
         _judge(rep, cars, "many", ["STRING"], c["text"], c["ok"], c["ms"],
-               nontrivial=c["ok"] and any(_interesting(w) for w in c["want"]), what="STRING universe",
+               nontrivial=c["ok"] and any(_interesting(w) for w in c["want"]), what="STRING universe" + label,
                extra=dict(want=c["want"]))
         n["strings"] = n.get("strings", 0) + 1
     for c in uni.get("num", ([], []))[0]:
+        if not take("num"):
+            continue
         for rule, m in zip(NUM_RULES, c["one"]):
-            _judge(rep, cars, "one", [rule], c["text"], m["ok"], [m], nontrivial=m["ok"], what="literal form")
-        _judge(rep, cars, "seq", ["NUMBER", "ID"], c["text"], c["seqok"], c["seq"], nontrivial=c["seqok"],
-               what="literal form then ID")
+            if _applies(cars, "one", c["text"], m["ok"], [m]):
+                _judge(rep, cars, "one", [rule], c["text"], m["ok"], [m], nontrivial=m["ok"],
+                       what="literal form" + label)
+        if _applies(cars, "seq", c["text"], c["seqok"], c["seq"]):
+            _judge(rep, cars, "seq", ["NUMBER", "ID"], c["text"], c["seqok"], c["seq"], nontrivial=c["seqok"],
+                   what="literal form then ID" + label)
         n["literal_forms"] = n.get("literal_forms", 0) + 1
-    for c in uni.get("bool", ([], []))[0]:
-        for rule, m in zip(BOOL_RULES, c["one"]):
-            _judge(rep, cars, "one", [rule], c["text"], m["ok"], [m], nontrivial=m["ok"], what="BOOL spelling")
-        n["bool_forms"] = n.get("bool_forms", 0) + 1
+    if not cars.opts.get("ignore_case"):
+        for c in uni.get("bool", ([], []))[0]:
+            for rule, m in zip(BOOL_RULES, c["one"]):
+                if _applies(cars, "one", c["text"], m["ok"], [m]):
+                    _judge(rep, cars, "one", [rule], c["text"], m["ok"], [m], nontrivial=m["ok"],
+                           what="BOOL spelling" + label)
+            n["bool_forms"] = n.get("bool_forms", 0) + 1
     return n
 
 
@@ -236,26 +290,38 @@ def _number_cases(rng, n_int, n_float):
     return out
 
 
-def _random_pass(rep, cars, rng, n_str, maxlen, n_int, n_float):
-    dev = ""
+def _random_cases(rep, rng, n_str, maxlen, n_int, n_float):
     scases = _string_cases(rng, n_str, maxlen)
     ncases = _number_cases(rng, n_int, n_float)
     allc = scases + [c for c, _, _ in ncases]
-    res, st = _cached(["random", allc], lambda: list(tlc.oracle("OracleBaseTypes", allc, env=dict(VT_DEV=dev))))
+    res, st = _cached(["random", allc], lambda: list(tlc.oracle("OracleBaseTypes", allc, env=dict(VT_DEV=""))))
     rep.add_oracle("OracleBaseTypes", st)
+    return scases, ncases, res
+
+
+def _random_judge(rep, cars, scases, ncases, res, frac=None, rng=None):
+    label = "" if not cars.opts else " under options"
+    ns = nn = 0
     for c in scases:
         r = res[c["id"]]
         want = [p["s"] for p in c["parts"]]
         if not r["thm"]:
-            rep.violation(dict(case=c, module=r), "BaseTypes.tla itself does not read this string back "
-                                                  "(round-trip theorem fails on the case)")
+            if not cars.opts:
+                rep.violation(dict(case=c, module=r), "BaseTypes.tla itself does not read this string back "
+                                                      "(round-trip theorem fails on the case)")
+            continue
+        if (frac is not None and rng.random() >= frac) or not _applies(cars, "many", r["text"], r["ok"], r["ms"]):
             continue
         _judge(rep, cars, "many", ["STRING"], r["text"], r["ok"], r["ms"],
-               nontrivial=any(_interesting(w) for w in want), what="random strings", extra=dict(want=want))
+               nontrivial=any(_interesting(w) for w in want), what="random strings" + label, extra=dict(want=want))
+        ns += 1
     for c, v, lit in ncases:
         r = res[c["id"]]
+        if (frac is not None and rng.random() >= frac) or not _applies(cars, c["mode"], c["text"], r["ok"], r["ms"]):
+            continue
+        nn += 1
         verdict = _judge(rep, cars, c["mode"], c["rules"], c["text"], r["ok"], r["ms"], nontrivial=r["ok"],
-                         what="random number", extra=dict(literal=lit))
+                         what="random number" + label, extra=dict(literal=lit))
         # the property itself: the literal read whole by a rule of its kind gives back the value it was
         # printed from (harness comparison, DESIGN.md section 8)
         if verdict == "pass" and r["ok"] and r["ms"][0]["end"] == len(lit):
@@ -264,9 +330,10 @@ def _random_pass(rep, cars, rng, n_str, maxlen, n_int, n_float):
             if isinstance(v, int) and r["ms"][0]["rule"] in ("FLOAT", "STRICTFLOAT"):
                 same = got == float(lit)
             if not same:
-                rep.violation(dict(case=c, literal=lit, value=repr(v), got=repr(got)),
-                              f"literal {lit!r} printed from {v!r} came back as {got!r}")
-    return len(scases), len(ncases)
+                rep.violation(dict(case=dict(c, opts=cars.opts), literal=lit, value=repr(v), got=repr(got)),
+                              f"literal {lit!r} printed from {v!r} came back as {got!r}" +
+                              (f" [meta-model options {cars.opts}]" if cars.opts else ""))
+    return ns, nn
 
 
 # ------------------------------------------------------------------ entry points
@@ -278,13 +345,16 @@ def run(rep):
                 "spellings x following text; numeric literal forms sign x integer part x fraction x exponent x "
                 "following text) through real textX meta-models, compared with the module's accept/reject, span, "
                 "type and value. I->S: seeded-random strings (long, unicode), ints up to 10**40 and floats in "
-                "repr/%e/%f/%g forms judged by TLC. Non-trivial: the input is accepted and (strings) contains a "
+                "repr/%e/%f/%g forms judged by TLC; a seeded sample of all of these again under the meta-model options "
+                "use_regexp_group, ignore_case, autokwd, skipws=False, memoization (same answers demanded). Non-trivial: the input is accepted and (strings) contains a "
                 "quote, backslash or newline; distinct by (grammar, text).")
     rep.assumptions = [
         "code points >= 128 belong to no character class of the module (\\w, \\d are ASCII there); the harness "
         "uses non-ASCII characters only inside quoted strings, where no rule consults a class",
         "whitespace skipped between matches is the textX default (tab, newline, carriage return, space)",
         "value equality of floats is a harness comparison with float(<the literal the module says was matched>)",
+        "under skipws=False only texts whose matches are contiguous are used, under ignore_case the BOOL universe is "
+        "left out (its spellings become case-insensitive by design); otherwise the options must not change any answer",
         "spans are observed by wrapping the base type in a one-attribute rule (V: x=R) and reading _tx_position(_end); "
         "for v*=STRING the plain grammar of the property statement is run as well and must give the same values",
     ]
@@ -311,9 +381,21 @@ def run(rep):
     rep.exhaustive = True
     lap("textx_universes")
     # (I->S)
-    ns, nn = _random_pass(rep, cars, rng, *( (1500, 80, 150, 300) if quick else (6000, 300, 3000, 6000)))
+    scases, ncases, res = _random_cases(rep, rng, *((1500, 80, 150, 300) if quick else (6000, 300, 3000, 6000)))
+    ns, nn = _random_judge(rep, cars, scases, ncases, res)
     rep.bounds["random"] = dict(string_cases=ns, number_cases=nn)
     lap("random_pass")
+    # the same answers under non-default meta-model options
+    under = {}
+    for name, opts in OPTION_SETS:
+        ocars = Carriers(opts)
+        full = (not quick) or name == "use_regexp_group"
+        got = _replay_universes(rep, ocars, uni, frac=None if not quick else dict(
+            strings=0.04, num=1.0 if full else 0.25), rng=rng)
+        rs, rn = _random_judge(rep, ocars, scases, ncases, res, frac=None if full else 0.3, rng=rng)
+        under[name] = dict(opts=opts, universes=got, random_strings=rs, random_numbers=rn)
+    rep.bounds["under_options"] = under
+    lap("options")
     rep.extra["phase_wall_s"] = phase          # where the time went (not used in any verdict)
 
 
@@ -325,12 +407,14 @@ def replay(path):
         print("stored record is not a parse case:", rec.get("why"))
         return 1
     if case["mode"] == "enc":
-        oc = dict(case, id="r")
+        oc = dict(id="r", mode="enc", rules=case["rules"], parts=case["parts"], sep=case["sep"])
     else:
         oc = dict(id="r", mode=case["mode"], rules=case["rules"], text=case["text"])
     res, _ = tlc.oracle("OracleBaseTypes", [oc], env=dict(VT_DEV=""))
     r = res["r"]
-    cars = Carriers()
+    cars = Carriers(case.get("opts"))
+    if cars.opts:
+        print("meta-model options", cars.opts)
     mode = "many" if oc["mode"] == "enc" else oc["mode"]
     run_ = cars.run(mode, oc["rules"], text_of(r["text"]))
     obs = observe(run_, r["ms"])
